@@ -191,3 +191,163 @@ Section N2S.
     apply (side_same_challenge n Hn g gi h hi (c_value c) Ci Hg Hh HC _ _ _ _ _ (eq_sym H2)).
   Qed.
 End N2S.
+
+(* ---------------------------------------------------------------- nispm: C = prod a_i^(m_i) b^r over the hidden positions *)
+Section NM.
+  Variable n : Z.
+  Hypothesis Hn : 0 < n.
+  Local Infix "==" := (cgs n) (at level 70).
+  Local Instance cgs_equiv3 : Equivalence (cgs n) := cgs_equiv n.
+  Local Instance cgs_mul3 : Proper (cgs n ==> cgs n ==> cgs n) Z.mul := cgs_mul n Hn.
+
+  Definition nm_chal (sel : list (Z * Z)) (b : Z) (p : nispm) (c : commitment) : Z :=
+    hash_int (str_cat (map fst sel ++ [b; c_value c; nm_t p])).
+
+  Theorem nispm_accepts p c pk bases U sel bi Ci :
+    pk_N pk = n ->
+    mapM (nthZ bases) (option_default [0%N] U) = Ok (map fst sel) -> units n sel ->
+    invert (pk_b pk) n = Some bi -> invert (c_value c) n = Some Ci ->
+    nispm_verify p c pk bases U = Ok true ->
+    length (nm_s1 p) = length sel /\
+    vW n sel (pk_b pk) bi (c_value c) Ci (nm_s1 p) (nm_s2 p) (nm_chal sel (pk_b pk) p c) = nm_t p mod n.
+  Proof.
+    intros HN Hm Hu Hb HC Hv. unfold nispm_verify in Hv. rewrite HN in Hv.
+    set (U' := option_default [0%N] U) in *.
+    destruct (Nat.eqb_spec (length U') (length (nm_s1 p))) as [Hl|Hl]; cbn [negb] in Hv; [|discriminate].
+    assert (Hls : length U' = length sel).
+    { clear - Hm. revert sel Hm. generalize U' as V. induction V as [|i V IH]; intros sel Hm.
+      - cbn in Hm. destruct sel; [reflexivity|discriminate].
+      - cbn [mapM] in Hm. destruct (nthZ bases i); try discriminate. cbn [bind] in Hm.
+        destruct (mapM (nthZ bases) V) eqn:E; try discriminate. cbn [bind] in Hm. destruct sel as [|q sel]; [discriminate|].
+        cbn [map] in Hm. inversion Hm; subst. cbn. f_equal. apply IH. reflexivity. }
+    rewrite (prod_sel_gp n Hn bases U' sel (nm_s1 p) 1 Hm Hu (eq_sym Hl)) in Hv. cbn [bind] in Hv.
+    rewrite Z.mul_1_l in Hv. rewrite Hm in Hv. cbn [bind] in Hv.
+    rewrite (pow_mod_gp n Hn _ bi _ Hb) in Hv. cbn [bind] in Hv.
+    fold (nm_chal sel (pk_b pk) p c) in Hv. rewrite (pow_mod_gp n Hn _ Ci _ HC) in Hv. cbn [bind] in Hv.
+    inversion Hv as [Hb']. apply Z.eqb_eq in Hb'.
+    split; [lia|].
+    apply (eq_to_vW n Hn sel (pk_b pk) bi (c_value c) Ci HC).
+    transitivity (Z.rem (gprod n sel (nm_s1 p) * gp n (pk_b pk) bi (nm_s2 p)) n).
+    - symmetry. apply (rem_eqm _ n Hn).
+    - rewrite Hb'. apply (rem_eqm _ n Hn).
+  Qed.
+
+  (* special soundness: the same first message answered for two challenges *)
+  Theorem nispm_special_soundness sel b bi C Ci s1 s2 c s1' s2' c' :
+    units n sel -> invert b n = Some bi -> invert C n = Some Ci ->
+    length s1 = length sel -> length s1' = length sel ->
+    vW n sel b bi C Ci s1 s2 c = vW n sel b bi C Ci s1' s2' c' ->
+    gprod n sel (vsub s1 s1') * gp n b bi (s2 - s2') == gp n C Ci (c - c').
+  Proof. intros Hu Hb HC Hl Hl' He. apply (vside_extract n Hn sel b bi C Ci Hu Hb HC _ _ _ _ _ _ Hl Hl' He). Qed.
+
+  (* rigidity: two accepted proofs for the same commitment with the same first message *)
+  Theorem nispm_rigid p p' c pk bases U sel bi Ci :
+    pk_N pk = n ->
+    mapM (nthZ bases) (option_default [0%N] U) = Ok (map fst sel) -> units n sel ->
+    invert (pk_b pk) n = Some bi -> invert (c_value c) n = Some Ci ->
+    nispm_verify p c pk bases U = Ok true -> nispm_verify p' c pk bases U = Ok true -> nm_t p = nm_t p' ->
+    gprod n sel (vsub (nm_s1 p) (nm_s1 p')) * gp n (pk_b pk) bi (nm_s2 p - nm_s2 p') == 1.
+  Proof.
+    intros HN Hm Hu Hb HC Hv Hv' Ht.
+    destruct (nispm_accepts p c pk bases U sel bi Ci HN Hm Hu Hb HC Hv) as [Hl H1].
+    destruct (nispm_accepts p' c pk bases U sel bi Ci HN Hm Hu Hb HC Hv') as [Hl' H2].
+    assert (Hc : nm_chal sel (pk_b pk) p c = nm_chal sel (pk_b pk) p' c) by (unfold nm_chal; rewrite Ht; reflexivity).
+    rewrite <- Hc, <- Ht, <- H1 in H2.
+    apply (vside_same_challenge n Hn sel (pk_b pk) bi (c_value c) Ci Hu Hb HC _ _ _ _ _ Hl Hl' (eq_sym H2)).
+  Qed.
+End NM.
+
+(* ---------------------------------------------------------------- nisp2: the same hidden attributes under two families of bases *)
+Section N2.
+  Variables n1 n2 : Z.
+  Hypothesis Hn1 : 0 < n1.
+  Hypothesis Hn2 : 0 < n2.
+
+  Definition n2_W1 (sel1 : list (Z * Z)) b bi C1 C1i (p : nisp2) : Z := vW n1 sel1 b bi C1 C1i (n2_d p) (n2_d1 p) (n2_chal p).
+  Definition n2_W2 (sel2 : list (Z * Z)) h hi C2 C2i (p : nisp2) : Z := vW n2 sel2 h hi C2 C2i (n2_d p) (n2_d2 p) (n2_chal p).
+
+  Theorem nisp2_verify_spec p c1 c2 pk bases ck U sel1 sel2 bi hi C1i C2i :
+    pk_N pk = n1 -> ck_N ck = n2 ->
+    mapM (nthZ bases) U = Ok (map fst sel1) -> units n1 sel1 ->
+    mapM (nthZ (ck_g ck)) U = Ok (map fst sel2) -> units n2 sel2 ->
+    invert (pk_b pk) n1 = Some bi -> invert (ck_h ck) n2 = Some hi ->
+    invert (c_value c1) n1 = Some C1i -> invert (c_value c2) n2 = Some C2i ->
+    length (n2_d p) = length U ->
+    nisp2_verify p c1 c2 pk bases ck U =
+    Ok (n2_chal p =? hash_int (str_cat [n2_W1 sel1 (pk_b pk) bi (c_value c1) C1i p; n2_W2 sel2 (ck_h ck) hi (c_value c2) C2i p])).
+  Proof.
+    intros HN1 HN2 Hm1 Hu1 Hm2 Hu2 Hb Hh HC1 HC2 Hl. unfold nisp2_verify. rewrite HN1, HN2.
+    rewrite Hl, Nat.eqb_refl. cbn [negb].
+    replace (- 1 * n2_chal p) with (- n2_chal p) by ring.
+    rewrite (pow_mod_gp n1 Hn1 _ C1i _ HC1), (pow_mod_gp n2 Hn2 _ C2i _ HC2). cbn [bind].
+    rewrite (prod_sel_gp n1 Hn1 bases U sel1 (n2_d p) 1 Hm1 Hu1 Hl). cbn [bind].
+    rewrite (prod_sel_gp n2 Hn2 (ck_g ck) U sel2 (n2_d p) 1 Hm2 Hu2 Hl). cbn [bind].
+    rewrite (pow_mod_gp n1 Hn1 _ bi _ Hb), (pow_mod_gp n2 Hn2 _ hi _ Hh). cbn [bind].
+    unfold n2_W1, n2_W2, vW. rewrite !Z.mul_1_l.
+    assert (Hnn1 : 0 <= gprod n1 sel1 (n2_d p) * gp n1 (pk_b pk) bi (n2_d1 p) * gp n1 (c_value c1) C1i (- n2_chal p)).
+    { pose proof (gprod_nonneg n1 Hn1 sel1 (n2_d p)). pose proof (gp_range n1 Hn1 (pk_b pk) bi (n2_d1 p)).
+      pose proof (gp_range n1 Hn1 (c_value c1) C1i (- n2_chal p)). apply Z.mul_nonneg_nonneg; [apply Z.mul_nonneg_nonneg|]; lia. }
+    assert (Hnn2 : 0 <= gprod n2 sel2 (n2_d p) * gp n2 (ck_h ck) hi (n2_d2 p) * gp n2 (c_value c2) C2i (- n2_chal p)).
+    { pose proof (gprod_nonneg n2 Hn2 sel2 (n2_d p)). pose proof (gp_range n2 Hn2 (ck_h ck) hi (n2_d2 p)).
+      pose proof (gp_range n2 Hn2 (c_value c2) C2i (- n2_chal p)). apply Z.mul_nonneg_nonneg; [apply Z.mul_nonneg_nonneg|]; lia. }
+    rewrite (rem_mod_nonneg _ n1 Hnn1 Hn1), (rem_mod_nonneg _ n2 Hnn2 Hn2). reflexivity.
+  Qed.
+
+  (* two tuples recomputing to the same two first messages: the SAME exponents ds_i open both commitments' quotients *)
+  Theorem nisp2_special_soundness sel1 sel2 b bi h hi C1 C1i C2 C2i p p' :
+    units n1 sel1 -> units n2 sel2 -> invert b n1 = Some bi -> invert h n2 = Some hi ->
+    invert C1 n1 = Some C1i -> invert C2 n2 = Some C2i ->
+    length (n2_d p) = length sel1 -> length (n2_d p') = length sel1 -> length sel2 = length sel1 ->
+    n2_W1 sel1 b bi C1 C1i p = n2_W1 sel1 b bi C1 C1i p' -> n2_W2 sel2 h hi C2 C2i p = n2_W2 sel2 h hi C2 C2i p' ->
+    cgs n1 (gprod n1 sel1 (vsub (n2_d p) (n2_d p')) * gp n1 b bi (n2_d1 p - n2_d1 p')) (gp n1 C1 C1i (n2_chal p - n2_chal p')) /\
+    cgs n2 (gprod n2 sel2 (vsub (n2_d p) (n2_d p')) * gp n2 h hi (n2_d2 p - n2_d2 p')) (gp n2 C2 C2i (n2_chal p - n2_chal p')).
+  Proof.
+    intros Hu1 Hu2 Hb Hh HC1 HC2 Hl Hl' Hs H1 H2. split.
+    - apply (vside_extract n1 Hn1 sel1 b bi C1 C1i Hu1 Hb HC1 _ _ _ _ _ _ Hl Hl' H1).
+    - assert (Hk : length (n2_d p) = length sel2) by lia. assert (Hk' : length (n2_d p') = length sel2) by lia.
+      apply (vside_extract n2 Hn2 sel2 h hi C2 C2i Hu2 Hh HC2 _ _ _ _ _ _ Hk Hk' H2).
+  Qed.
+
+  (* two accepted proofs of the same statement with the same challenge: relations between the bases, or a collision *)
+  Theorem nisp2_rigid p p' c1 c2 pk bases ck U sel1 sel2 bi hi C1i C2i :
+    pk_N pk = n1 -> ck_N ck = n2 ->
+    mapM (nthZ bases) U = Ok (map fst sel1) -> units n1 sel1 ->
+    mapM (nthZ (ck_g ck)) U = Ok (map fst sel2) -> units n2 sel2 ->
+    invert (pk_b pk) n1 = Some bi -> invert (ck_h ck) n2 = Some hi ->
+    invert (c_value c1) n1 = Some C1i -> invert (c_value c2) n2 = Some C2i ->
+    nisp2_verify p c1 c2 pk bases ck U = Ok true -> nisp2_verify p' c1 c2 pk bases ck U = Ok true ->
+    n2_chal p = n2_chal p' ->
+    (cgs n1 (gprod n1 sel1 (vsub (n2_d p) (n2_d p')) * gp n1 (pk_b pk) bi (n2_d1 p - n2_d1 p')) 1 /\
+     cgs n2 (gprod n2 sel2 (vsub (n2_d p) (n2_d p')) * gp n2 (ck_h ck) hi (n2_d2 p - n2_d2 p')) 1) \/
+    (exists a b : list Z, a <> b /\ hash_int (str_cat a) = hash_int (str_cat b)).
+  Proof.
+    intros HN1 HN2 Hm1 Hu1 Hm2 Hu2 Hb Hh HC1 HC2 Hv Hv' Hc.
+    assert (HlU : forall q, nisp2_verify q c1 c2 pk bases ck U = Ok true -> length (n2_d q) = length U).
+    { intros q Hq. unfold nisp2_verify in Hq. destruct (Nat.eqb_spec (length (n2_d q)) (length U)); [assumption|discriminate]. }
+    pose proof (HlU p Hv) as Hl. pose proof (HlU p' Hv') as Hl'.
+    assert (Hs1 : length U = length sel1).
+    { clear - Hm1. revert sel1 Hm1. induction U as [|i V IH]; intros sel Hm.
+      - cbn in Hm. destruct sel; [reflexivity|discriminate].
+      - cbn [mapM] in Hm. destruct (nthZ bases i); try discriminate. cbn [bind] in Hm.
+        destruct (mapM (nthZ bases) V) eqn:E; try discriminate. cbn [bind] in Hm. destruct sel as [|q sel]; [discriminate|].
+        cbn [map] in Hm. inversion Hm; subst. cbn. f_equal. apply IH. reflexivity. }
+    assert (Hs2 : length U = length sel2).
+    { clear - Hm2. revert sel2 Hm2. induction U as [|i V IH]; intros sel Hm.
+      - cbn in Hm. destruct sel; [reflexivity|discriminate].
+      - cbn [mapM] in Hm. destruct (nthZ (ck_g ck) i); try discriminate. cbn [bind] in Hm.
+        destruct (mapM (nthZ (ck_g ck)) V) eqn:E; try discriminate. cbn [bind] in Hm. destruct sel as [|q sel]; [discriminate|].
+        cbn [map] in Hm. inversion Hm; subst. cbn. f_equal. apply IH. reflexivity. }
+    rewrite (nisp2_verify_spec p c1 c2 pk bases ck U sel1 sel2 bi hi C1i C2i HN1 HN2 Hm1 Hu1 Hm2 Hu2 Hb Hh HC1 HC2 Hl) in Hv.
+    rewrite (nisp2_verify_spec p' c1 c2 pk bases ck U sel1 sel2 bi hi C1i C2i HN1 HN2 Hm1 Hu1 Hm2 Hu2 Hb Hh HC1 HC2 Hl') in Hv'.
+    set (W1 := n2_W1 sel1 (pk_b pk) bi (c_value c1) C1i) in *. set (W2 := n2_W2 sel2 (ck_h ck) hi (c_value c2) C2i) in *.
+    assert (E : n2_chal p = hash_int (str_cat [W1 p; W2 p])) by (apply Z.eqb_eq; inversion Hv; reflexivity).
+    assert (E' : n2_chal p' = hash_int (str_cat [W1 p'; W2 p'])) by (apply Z.eqb_eq; inversion Hv'; reflexivity).
+    destruct (list_eq_dec Z.eq_dec [W1 p; W2 p] [W1 p'; W2 p']) as [Heq|Hne].
+    - left. inversion Heq as [[H1 H2]]. unfold W1, n2_W1 in H1. unfold W2, n2_W2 in H2. rewrite <- Hc in H1, H2. split.
+      + assert (K : length (n2_d p) = length sel1) by lia. assert (K' : length (n2_d p') = length sel1) by lia.
+        apply (vside_same_challenge n1 Hn1 sel1 (pk_b pk) bi (c_value c1) C1i Hu1 Hb HC1 _ _ _ _ _ K K' H1).
+      + assert (K : length (n2_d p) = length sel2) by lia. assert (K' : length (n2_d p') = length sel2) by lia.
+        apply (vside_same_challenge n2 Hn2 sel2 (ck_h ck) hi (c_value c2) C2i Hu2 Hh HC2 _ _ _ _ _ K K' H2).
+    - right. exists [W1 p; W2 p], [W1 p'; W2 p']. split; [exact Hne|]. rewrite <- E, <- E'. exact Hc.
+  Qed.
+End N2.
